@@ -127,8 +127,18 @@ var sclDecl = regexp.MustCompile(`\(declare-fun scl(\d+) \(\(_ BitVec 64\)\) \(_
 // variants of a query that uses the scaling abstraction (see scaleReg): [abstract + facts, exact].
 // Without the abstraction there is one variant.
 func queryVariants(sc string) []string {
+	hasDiv := strings.Contains(sc, "\n;DIVF ")
+	withDiv := strings.ReplaceAll(sc, "\n;DIVF ", "\n")
 	if !sclDecl.MatchString(sc) {
+		if hasDiv {
+			// [without the division facts, with them]; a model is believed only of the second
+			return []string{sc, withDiv}
+		}
 		return []string{sc}
+	}
+	if hasDiv {
+		vs := queryVariants(withDiv) // [abstract scaling + facts, exact scaling], both with division facts
+		return append([]string{strings.ReplaceAll(sc, "\n;ARITH ", "\n")}, vs...)
 	}
 	abs := strings.ReplaceAll(sc, "\n;ARITH ", "\n")
 	exact := sclDecl.ReplaceAllStringFunc(sc, func(m string) string {
@@ -236,13 +246,21 @@ func (d *Discharger) discharge(i int, o *Obligation) {
 	file := filepath.Join(d.dir, fmt.Sprintf("q%05d.smt2", i))
 	os.WriteFile(file, []byte(o.script(gv)), 0o644)
 	files := []string{file}
-	if vs := queryVariants(o.script(gv)); len(vs) == 2 && !o.Cover {
-		// [abstracted scaling + facts, exact]; the exact one is the file kept for inspection
-		fa := filepath.Join(d.dir, fmt.Sprintf("q%05d.a.smt2", i))
-		os.WriteFile(fa, []byte(vs[0]), 0o644)
-		os.WriteFile(file, []byte(vs[1]), 0o644)
-		files = []string{fa, file}
-		defer os.Remove(fa)
+	if vs := queryVariants(o.script(gv)); len(vs) >= 2 && !o.Cover {
+		// the last variant is the most exact one: it is the file kept for inspection and the only one
+		// whose models are believed
+		files = nil
+		for k, v := range vs[:len(vs)-1] {
+			fa := filepath.Join(d.dir, fmt.Sprintf("q%05d.%c.smt2", i, 'a'+k))
+			os.WriteFile(fa, []byte(v), 0o644)
+			files = append(files, fa)
+			defer os.Remove(fa)
+		}
+		os.WriteFile(file, []byte(vs[len(vs)-1]), 0o644)
+		files = append(files, file)
+	} else if o.Cover {
+		// covers: division facts on (they are theorems; without them the quotient is unconstrained)
+		os.WriteFile(file, []byte(strings.ReplaceAll(o.script(gv), "\n;DIVF ", "\n")), 0o644)
 	}
 	// quantifier-free first: the hypotheses that are quantified are dropped (their relevant
 	// instances were added explicitly, see instantiateFor); proving the goal from fewer
@@ -267,12 +285,16 @@ func (d *Discharger) discharge(i int, o *Obligation) {
 				q = strings.Replace(q, "(set-logic ALL)", "(set-logic QF_AUFBV)", 1)
 				os.WriteFile(f2, []byte(q), 0o644)
 				qfs := []string{f2}
-				if vs := queryVariants(q); len(vs) == 2 {
-					f3 := file + ".qfa.smt2"
-					os.WriteFile(f3, []byte(vs[0]), 0o644)
-					os.WriteFile(f2, []byte(vs[1]), 0o644)
-					qfs = []string{f3, f2}
-					defer os.Remove(f3)
+				if vs := queryVariants(q); len(vs) >= 2 {
+					qfs = nil
+					for k, v := range vs[:len(vs)-1] {
+						f3 := fmt.Sprintf("%s.qf%c.smt2", file, 'a'+k)
+						os.WriteFile(f3, []byte(v), 0o644)
+						qfs = append(qfs, f3)
+						defer os.Remove(f3)
+					}
+					os.WriteFile(f2, []byte(vs[len(vs)-1]), 0o644)
+					qfs = append(qfs, f2)
 				}
 				r0 := raceFiles(qfs, 35, d.seed, solvers[:1])
 				if r0.status == "sat" {
